@@ -61,8 +61,8 @@ pub struct World {
 }
 
 /// Lifecycle template (DESIGN §3.3): a factory that CREATE2s one fixed child with the
-/// transaction's value; the child's init code stores 0x42 at slot CALLVALUE (so every
-/// incarnation writes a different slot), its runtime code self-destructs to the caller
+/// transaction's value; the child's init code stores 0x42 at slot CALLVALUE unless the value
+/// is zero (so incarnations write different slots, or none), its runtime code self-destructs to the caller
 /// (calldata[0] != 0) or stores calldata[2] at slot calldata[1]. Histories over these
 /// transactions create, change, destroy and re-create the same address.
 pub fn add_lifecycle(w: &mut World, pct: u64) {
@@ -83,9 +83,16 @@ pub fn add_lifecycle(w: &mut World, pct: u64) {
     r.push_u(2).op(CALLDATALOAD).push_u(0).op(BYTE);
     r.push_u(1).op(CALLDATALOAD).push_u(0).op(BYTE);
     r.op(SSTORE).op(STOP);
-    // child init: SSTORE(CALLVALUE, 0x42), then return the runtime
+    // child init: if CALLVALUE != 0 { SSTORE(CALLVALUE, 0x42) }, then return the runtime. An
+    // incarnation created with value 0 writes no slot at all and has the same nonce, balance
+    // and code as any other value-0 incarnation: destroy + re-create then changes nothing
+    // but the storage.
     let mut p = Asm::new();
-    p.push_u(0x42).op(CALLVALUE).op(SSTORE);
+    p.op(CALLVALUE).op(ISZERO);
+    let skip = p.len() + 3 + 1 + 2 + 1 + 1;
+    p.push2(skip as u16).op(JUMPI).push_u(0x42).op(CALLVALUE).op(SSTORE);
+    debug_assert_eq!(p.len(), skip);
+    p.op(JUMPDEST);
     let init = wrap_initcode(&p.code, &r.code);
     // factory: CREATE2(value = CALLVALUE, init, salt 0)
     let mut f = Asm::new();
@@ -105,6 +112,13 @@ pub fn add_lifecycle(w: &mut World, pct: u64) {
         if !w.slots.contains(&U256::from(k)) {
             w.slots.push(U256::from(k));
         }
+    }
+    // in some worlds an incarnation with storage is on the disk from the start
+    if salt % 3 == 0 {
+        let mut d = DiskAccount { nonce: 1, code: Bytes::from(r.code.clone()), ..Default::default() };
+        d.storage.insert(U256::from(1), U256::from(0x42));
+        d.storage.insert(U256::from(3), U256::from(7));
+        w.disk.accounts.insert(child, d);
     }
     w.lifecycle = Some((factory, child));
     w.lifecycle_pct = pct;
